@@ -31,6 +31,12 @@ def run(ctx):
         "wrapper in the factory (or is a list whose items the factory quotes); (F5b) every quoting wrapper escapes "
         "backslash before double quote; (F6) a value that may be a list is not used as a dictionary key.")
     ctx.not_decided = "the parser's verdict on the rendered text for all definitions and values (behavioural)."
+    factory_rules(ctx, R, PR)
+
+
+def factory_rules(ctx, R, PR):
+    """F1-F6 (shared with C19, whose read-back on a reloaded set needs the rendered script to be accepted by the parser)."""
+    prog = ctx.program
     table = PR.table()
     by_name = {e["name"]: e for e in table.values() if not e["abstract"]}
     lk = PR.lookup
@@ -234,36 +240,15 @@ def run(ctx):
                 ctx.violation("F4", f, "unchecked-tag:%s" % norm(c)[:60], "a tag is accepted with check_extension=False (%s) but the extension it "
                               "may need is not required" % norm(c)[:60], node=c,
                               witness="e.g. currentdate with :regex / vacation :seconds: rendered without the require, rejected by the parser")
-    ctx.need("F4", "unchecked tag sites", n4, 1)
+    if n4 == 0:
+        ctx.notice("F4", "no tag is accepted with check_extension=False: nothing to pair with a require derivation")
 
     # ---- F5 -----------------------------------------------------------------------
     ctx.rule("F5a", "user values reaching string / string-list arguments are quoted by the factory")
     ctx.rule("F5b", "every quoting wrapper escapes backslash before double quote")
     qh = R.quote
+    escaped = f5_helper(ctx, R)
     esc_funcs = {n for n, f in R.m.items() if is_escaper(prog, f)}
-
-    def escaped(e):
-        """e applies a recognised escaper to its operand"""
-        if isinstance(e, ast.Call) and isinstance(e.func, ast.Attribute) and e.func.attr in esc_funcs:
-            return True
-        if isinstance(e, ast.Call) and replace_chain_ok(prog, e):
-            return True
-        return False
-
-    # the helper itself
-    if qh is None:
-        raise AnalysisError("F5b", "quoting helper not found")
-    hw = [b for b in ast.walk(qh.node) if isinstance(b, ast.BinOp) and isinstance(b.op, ast.Mod) and isinstance(b.left, ast.Constant) and b.left.value == '"%s"']
-    hw += [c for c in ast.walk(qh.node) if isinstance(c, ast.Call) and call_name(c) == "format" and isinstance(c.func.value, ast.Constant) and c.func.value.value == '"{}"']
-    if not hw:
-        raise AnalysisError("F5b", "quoting helper wraps nothing")
-    for b in hw:
-        inner = b.right if isinstance(b, ast.BinOp) else (b.args[0] if b.args else None)
-        if inner is not None and escaped(inner):
-            ctx.holds("F5b", "%s: %s" % (qh.qualname, norm(b)))
-        else:
-            ctx.violation("F5b", qh, "helper-unescaped", "the quoting helper wraps the value in quotes without escaping `\\` and `\"`: %s" % norm(b), node=b,
-                          witness="fileinto 'x\"; discard; #' renders a script with an extra discard command")
     n5 = 0
     for f in (R.create, R.build_condition):
         if f is None:
@@ -401,3 +386,62 @@ def classify_value(prog, qh, esc_funcs, d):
             return ("ok", "inline list wrapper with escaping")
         return ("unescaped", "inline list wrapper")
     return ("bad", "no quoting recognised")
+
+
+def f5_helper(ctx, R):
+    """F5 rules about the quoting helper itself (shared with C19: the reloaded set is parsed from the text this helper quotes)."""
+    prog = ctx.program
+    ctx.rule("F5a", "user values reaching string / string-list arguments are quoted by the factory")
+    ctx.rule("F5b", "every quoting wrapper escapes backslash before double quote")
+    qh = R.quote
+    esc_funcs = {n for n, f in R.m.items() if is_escaper(prog, f)}
+
+    def escaped(e):
+        """e applies a recognised escaper to its operand"""
+        if isinstance(e, ast.Call) and isinstance(e.func, ast.Attribute) and e.func.attr in esc_funcs:
+            return True
+        if isinstance(e, ast.Call) and replace_chain_ok(prog, e):
+            return True
+        return False
+
+    # the helper itself
+    if qh is None:
+        raise AnalysisError("F5b", "quoting helper not found")
+    hw = [b for b in ast.walk(qh.node) if isinstance(b, ast.BinOp) and isinstance(b.op, ast.Mod) and isinstance(b.left, ast.Constant) and b.left.value == '"%s"']
+    hw += [c for c in ast.walk(qh.node) if isinstance(c, ast.Call) and call_name(c) == "format" and isinstance(c.func.value, ast.Constant) and c.func.value.value == '"{}"']
+    if not hw:
+        raise AnalysisError("F5b", "quoting helper wraps nothing")
+    for b in hw:
+        inner = b.right if isinstance(b, ast.BinOp) else (b.args[0] if b.args else None)
+        if inner is not None and escaped(inner):
+            ctx.holds("F5b", "%s: %s" % (qh.qualname, norm(b)))
+        else:
+            ctx.violation("F5b", qh, "helper-unescaped", "the quoting helper wraps the value in quotes without escaping `\\` and `\"`: %s" % norm(b), node=b,
+                          witness="fileinto 'x\"; discard; #' renders a script with an extra discard command")
+    # the only values the helper may hand back unquoted are those that start with a quote character (documented exemption)
+    qp = qh.params[1] if len(qh.params) > 1 else None
+    qcfg = ctx.cfg(qh)
+
+    def starts_quoted(fc):
+        e, pol = fact_atom(fc)
+        if pol is True and isinstance(e, ast.Call) and isinstance(e.func, ast.Attribute) and e.func.attr == "startswith" \
+                and isinstance(e.func.value, ast.Name) and e.func.value.id == qp and e.args:
+            v = const_value(prog, qh, e.args[0])
+            vs = v if isinstance(v, (tuple, list)) else [v]
+            return all(x in ('"', "'") for x in vs)
+        if pol is True and isinstance(e, ast.Compare):
+            cp = cmp_parts(e)
+            if cp and cp[1] in ("Eq", "In") and norm(cp[0]) in ("%s[0]" % qp, "%s[:1]" % qp):
+                v = const_value(prog, qh, cp[2])
+                vs = v if isinstance(v, (tuple, list)) else [v]
+                return all(x in ('"', "'") for x in vs)
+        return False
+    for r in walk_no_nested(qh.node):
+        if isinstance(r, ast.Return) and isinstance(r.value, ast.Name) and r.value.id == qp:
+            if all(qcfg.guarded(x, starts_quoted) for x in qcfg.nodes_for(r)):
+                ctx.holds("F5a", "%s returns the value as is only when it starts with a quote character" % qh.qualname)
+            else:
+                ctx.violation("F5a", qh, "helper-passes-unquoted", "the quoting helper can return a value unquoted although it does not start with a "
+                              "quote character: user text then appears outside a string literal", node=r,
+                              witness='a subject key "[SPAM]" or a folder "[Gmail]" is rendered as a bare token / string list')
+    return escaped
